@@ -79,6 +79,7 @@ type PodA struct {
 	Owner     *OwnerA `json:"owner"`
 	Phase     string  `json:"phase"`
 	Ready     bool    `json:"ready"`
+	Cond      string  `json:"cond,omitempty"` // status of the Ready condition of a pod that is not ready: "" = no condition, "False", "Unknown"
 	Term      bool    `json:"term"`
 	Rev       string  `json:"rev"`
 	NameLabel *string `json:"namelabel"`
@@ -257,6 +258,8 @@ func (p *PodA) object(setApp string) *v1.Pod {
 	pod.Status.Phase = v1.PodPhase(p.Phase)
 	if p.Ready {
 		pod.Status.Conditions = []v1.PodCondition{{Type: v1.PodReady, Status: v1.ConditionTrue}}
+	} else if p.Cond != "" {
+		pod.Status.Conditions = []v1.PodCondition{{Type: v1.PodReady, Status: v1.ConditionStatus(p.Cond)}}
 	}
 	if p.Term {
 		t := metav1.NewTime(epoch.Add(time.Hour))
